@@ -100,7 +100,12 @@ def check_real_interrupt(scenario, fault, stats=None):
     from vf.sim.realrun import run_real_interrupt
     from bridge_env.data_handler.json_handler.parser import JsonParser
     k = fault['board']
-    r = run_real_interrupt(scenario, fault)
+    try:
+        r = run_real_interrupt(scenario, fault)
+    except Inconclusive:
+        if stats is not None:
+            stats.excluded['real server process could not be started (skipped, not judged)'] += 1
+        return
     case = {'scenario': scenario, 'schedule': {'kind': 'sequential'}, 'fault': fault, 'real_process': True}
     if r.timed_out or not r.interrupt_sent:
         # wall-clock safety net / the scripted point was never reached (a loaded machine, a port taken by somebody
